@@ -92,4 +92,5 @@ def run(ctx):
     # the opcode that the typed expect_* helpers compare with M::OPCODE must be taken at its full wire width
     from . import c02_frame
     c02_frame.run_header_structs(ctx)
+    c02_frame.run_opcode_width(ctx)
     return "other", EXPLANATION, {}
